@@ -112,7 +112,8 @@ def lowerCond (ρ : Rho) (code : Nat) (x : Name) (a b : Expr) : Option (List VIn
     | none => none
   | _, _ => none
 
-/-- statements (temporaries restart at 0 for each) -/
+/-- statements (temporaries restart at 0 for each); a bare operator expression is its code, the result temporary
+is not used (`lowerE` is `none` on a node that is neither a bind to a name nor a pure operator) -/
 def lowerStmt (ρ : Rho) : Expr → Option (List VInstr)
   | .none => some []
   | .sexp .bind (.atom (.name x)) (.sexp .if c v) => lowerCond ρ 7 x c v
@@ -122,6 +123,7 @@ def lowerStmt (ρ : Rho) : Expr → Option (List VInstr)
     match ρ x, lowerE ρ e 0 with
     | some tx, some ce => some (ce.instrs ++ [⟨1, tx, tx, ce.reg⟩])
     | _, _ => none
+  | .sexp o l r => (lowerE ρ (.sexp o l r) 0).map (·.instrs)
   | _ => none
 
 def lowerBody (ρ : Rho) : List Expr → Option (List VInstr)
